@@ -5,6 +5,7 @@ import (
 	"strings"
 
 	"github.com/vedadiyan/genql"
+	"github.com/vedadiyan/genql/vrt"
 	"verif/harness/core"
 	"verif/harness/gq"
 )
@@ -76,6 +77,11 @@ var c19Templates = []c19t{
 	{"join-on-right", "SELECT * FROM t x RIGHT JOIN u y ON x.a >= y.c AND FAULTB(y.c)", false},
 	{"join-on-parallel", "SELECT * FROM t x PARALLEL JOIN u y ON x.a >= y.c AND FAULTB(y.c)", false},
 	{"join-on-or", "SELECT * FROM t x JOIN u y ON x.a = y.c OR FAULTB(x.a)", false},
+	// PARALLEL joins evaluate ON in one goroutine per left key: a key without any partner (a = 1),
+	// keys that match, and the failing one finish in every order (schedules explored below)
+	{"join-on-parallel-unmatched", "SELECT * FROM t x PARALLEL JOIN u y ON x.a > y.c AND FAULTB(y.c)", false},
+	{"join-on-parallel-left", "SELECT * FROM t x PARALLEL LEFT JOIN u y ON x.a > y.c AND FAULTB(x.a)", false},
+	{"join-on-parallel-first", "SELECT * FROM t x PARALLEL JOIN u y ON FAULTB(x.a) AND x.a > y.c", false},
 	{"raise-when-select", "SELECT RAISE_WHEN(id = {K}, 'boom'), id FROM t", false},
 	{"raise-when-having", "SELECT b, RAISE_WHEN(COUNT(*) > {K}, 'boom'), COUNT(*) AS c FROM t GROUP BY b", false},
 	{"raise-in-subquery", "SELECT id, (SELECT RAISE_WHEN(q = {K}, 'boom'), q FROM items) AS s FROM t", false},
@@ -292,6 +298,9 @@ func (p *c19) RunCase(i int) *core.CaseResult {
 					continue
 				}
 				mustFail(o, t.sql, tbl, k, doc)
+				if strings.Contains(t.sql, " PARALLEL ") {
+					p.schedules(r, t, tbl, k)
+				}
 				// the failed query's own fault-free twin, on the same document
 				twin := run(doc, t.sql, 0)
 				if got, want := outcome(twin), outcome(o0); got != want && !p.kinds(t).bag {
@@ -303,6 +312,47 @@ func (p *c19) RunCase(i int) *core.CaseResult {
 	return r
 }
 
+// schedules: a PARALLEL join evaluates ON in one goroutine per left key; the k-th invocation fails
+// under every completion order of those goroutines and every iteration order of the key tables
+// within the bound: whenever the failure was injected, the query must fail.
+func (p *c19) schedules(r *core.CaseResult, t *c19t, tbl []int, k int) {
+	bound := 1
+	if p.tier == "thorough" {
+		bound = 2
+	}
+	cfg := vrt.Config{Sched: true, MapOrder: true, Quiet: true}
+	vrt.SetQuiet(genql.VerifSelectorMutex())
+	st := gq.ExploreQuery(cfg, bound, 200000,
+		func() (map[string]any, string, []genql.QueryOption) {
+			resetFaults(k)
+			return p.doc(tbl), t.sql, []genql.QueryOption{genql.WithVars(map[string]any{})}
+		},
+		func(o *gq.Out, prefix []int32) bool {
+			if faultCount < k {
+				return true
+			}
+			cs := map[string]any{"sql": t.sql, "fault_at": k, "doc": p.doc(tbl), "choices": prefix}
+			switch {
+			case o.Panic != "" || o.GPanic != "":
+				r.Fail("C19|"+t.clause+"|panic", fmt.Sprintf("%s on %s with the failure at %d, choices %v: panic %s%s", t.sql, gq.Render(p.doc(tbl)["t"]), k, prefix, o.Panic, o.GPanic), cs)
+				return false
+			case o.Err == nil:
+				r.Fail("C19|"+t.clause+"|no-error", fmt.Sprintf("%s on %s with the failure at invocation %d returned successfully under choices %v: %s", t.sql, gq.Render(p.doc(tbl)["t"]), k, prefix, gq.Render(o.Rows)), cs)
+				return false
+			case o.Rows != nil:
+				r.Fail("C19|"+t.clause+"|rows-with-error", fmt.Sprintf("%s on %s, choices %v: error %v together with rows %s", t.sql, gq.Render(p.doc(tbl)["t"]), prefix, o.Err, gq.Render(o.Rows)), cs)
+				return false
+			}
+			return true
+		})
+	r.Execs += st.Execs
+	r.Transitions += st.Transitions
+	r.Count("schedules_explored", st.Execs)
+	if st.Capped {
+		r.Capped = true
+	}
+}
+
 type c19kind struct{ bag bool }
 
 // kinds: joins return a multiset (the row order is not fixed), so the twin comparison is skipped for them
@@ -312,7 +362,7 @@ func (p *c19) kinds(t *c19t) c19kind {
 
 func (p *c19) Meta() core.Meta {
 	return core.Meta{
-		Rule: "one case per template: 54 templates with the fault point FAULT(x) / RAISE_WHEN in every clause position (WHERE connectives and operators, select list incl. star / arithmetic / CASE / function arguments / ONCE, DISTINCT, ORDER BY, LIMIT, HAVING, grouped and whole-table aggregates, CTE body / consumer / chain / double reference, derived table and consumer, select-list / IN / EXISTS subqueries incl. <-, union branches, join consumers, derived join sides and join ON expressions for every join kind, nested FROM) and 28 templates that fail by themselves (each run three times) (type errors in every clause incl. join ON, GROUP BY / ORDER BY of non-columns, unknown functions, arity, out-of-range indices, wrong shapes, non-array FROM, non-integer LIMIT), on every table of 1..2 (thorough 3) rows over 3 archetypes; each fault template is run fault-free to count N invocations and then once per k = 1..N. Oracle: New/Exec report an error and return no rows; then 6 follow-up queries on the same document object equal their results on a pristine copy. non-trivial = a failure was injected and surfaced",
+		Rule: "one case per template: 57 templates with the fault point FAULT(x) / RAISE_WHEN in every clause position (WHERE connectives and operators, select list incl. star / arithmetic / CASE / function arguments / ONCE, DISTINCT, ORDER BY, LIMIT, HAVING, grouped and whole-table aggregates, CTE body / consumer / chain / double reference, derived table and consumer, select-list / IN / EXISTS subqueries incl. <-, union branches, join consumers, derived join sides and join ON expressions for every join kind - for PARALLEL joins with an unmatched left key and additionally under every completion order of the per-key goroutines and every key iteration order within 1 (thorough 2) deviations -, nested FROM) and 28 templates that fail by themselves (each run three times) (type errors in every clause incl. join ON, GROUP BY / ORDER BY of non-columns, unknown functions, arity, out-of-range indices, wrong shapes, non-array FROM, non-integer LIMIT), on every table of 1..2 (thorough 3) rows over 3 archetypes; each fault template is run fault-free to count N invocations and then once per k = 1..N. Oracle: New/Exec report an error and return no rows; then 6 follow-up queries on the same document object equal their results on a pristine copy. non-trivial = a failure was injected and surfaced",
 		Assumptions: []string{"only synchronously evaluated steps are claimed (ASYNC / SPIN failures go to the UnReportedErrors handler)", "the type error of t2 strikes on the last row only, so a partial result would be visible"},
 		Bounds:      map[string]any{"templates": len(c19Templates), "tables": len(p.tables), "followups": len(c19Followups)},
 		Exhaustive:  true,
